@@ -153,8 +153,10 @@ size_t SubjectRouter::Node::notify(RoutingLevelView levelView, Args &&...args) {
         if (nextLevel.isRegex()) {
             size_t notifyCount = 0;
 
+            // keep the caller's argument types: deducing them from the lvalues `args...` would turn
+            // by-value parameters into references and address a Subject<T&> instead of the Subject<T>
             for (auto & [name, node] : m_children)
-                notifyCount += node.notify(nextLevel, args...);
+                notifyCount += node.template notify<Args...>(nextLevel, static_cast<Args>(args)...);
 
             return notifyCount;
         } else {
